@@ -13,6 +13,7 @@ Section Rel.
 Variables Bf1 Bf2 : ftab.
 (* the two sides know the same user functions *)
 Hypothesis Hbody : forall nm, ft_body Bf1 nm = ft_body Bf2 nm.
+Hypothesis Harity : forall nm, ft_arity Bf1 nm = ft_arity Bf2 nm.
 
 (* the names of functions: the built-ins and the user functions of the table *)
 Definition is_bname (g : string) : bool :=
@@ -42,8 +43,7 @@ Fixpoint nobs (t : node) : bool :=
   | NIfElse c a b => nobe c && nobs a && nobs b
   | NWhile c b => nobe c && nobs b
   | NWrite e => nobe e
-  | NCall (NName nm) [e] => nobe e
-  | NCall (NName nm) [] => true
+  | NCall (NName nm) args => forallb nobe args
   | _ => nobe t
   end.
 
@@ -126,6 +126,41 @@ Qed.
 (* the bodies of the user functions do not read function names as data either *)
 Hypothesis Hnob : forall nm body, ft_body Bf1 nm = Some body -> nobe body = true.
 
+Lemma seq_den_same G1 G2 : gsame G1 G2 -> forall l, forallb pure l = true -> forallb nobe l = true ->
+  seq_res (den G1) l = seq_res (den G2) l.
+Proof.
+  intros HG. induction l as [|x r IH]; intros Hp Hn; [reflexivity|].
+  cbn [forallb] in Hp, Hn. apply andb_prop in Hp. destruct Hp as [Hp1 Hp2]. apply andb_prop in Hn. destruct Hn as [Hn1 Hn2].
+  cbn [seq_res]. rewrite (den_same _ _ HG x Hp1 Hn1), (IH Hp2 Hn2). reflexivity.
+Qed.
+
+Lemma ucall_related o1 o2 n W1 W2 nm args W1' r :
+  forallb pure args = true -> forallb nobe args = true -> bop_of_name nm = None -> wrel o1 o2 W1 W2 ->
+  ucall_sem Bf1 n W1 nm args = Some (W1', r) ->
+  exists W2', ucall_sem Bf2 n W2 nm args = Some (W2', r) /\ wrel o1 o2 W1' W2'.
+Proof.
+  intros Hp Hn Eb HR Hs. pose proof HR as [Hg Ho Hi Hb]. unfold ucall_sem in *.
+  rewrite <- Hbody, <- Harity. destruct (ft_body Bf1 nm) as [body|] eqn:Ebody; [|discriminate Hs].
+  assert (Hbn : is_bname nm = true) by (unfold is_bname; rewrite Eb, Ebody; apply orb_true_r).
+  rewrite <- (Hb nm Hbn).
+  destruct ((ft_arity Bf1 nm =? zlen args) && lpure (repeat VNil (List.length args)) body && Nat.leb (heights args) n
+            && Nat.leb (height body) n && fun_eqb (gval (w_glob W1) nm) (ft_val Bf1 nm)) eqn:Ec; [|discriminate Hs].
+  rewrite <- (seq_den_same _ _ Hg args Hp Hn).
+  destruct (seq_res (den (w_glob W1)) args) as [xs|err] eqn:Exs.
+  - assert (Hlp : lpure xs body = true).
+    { apply andb_prop in Ec. destruct Ec as [Ec _]. apply andb_prop in Ec. destruct Ec as [Ec _].
+      apply andb_prop in Ec. destruct Ec as [Ec _]. apply andb_prop in Ec. destruct Ec as [_ Ec].
+      rewrite (lpure_len xs (repeat VNil (List.length args)) body); [exact Ec|].
+      unfold zlen. rewrite repeat_length, (seq_res_length _ _ _ Exs). reflexivity. }
+    rewrite <- (lden_same xs _ _ Hg body Hlp (Hnob nm body Ebody)).
+    destruct (lden xs (w_glob W1) body) as [y|err].
+    + destruct (is_fun y); [discriminate Hs|]. injection Hs as <- <-. eexists. split; [reflexivity|].
+      constructor; cbn [wbump w_glob w_out w_in]; assumption.
+    + injection Hs as <- <-. eexists. split; [reflexivity|].
+      constructor; cbn [wbump w_glob w_out w_in]; assumption.
+  - injection Hs as <- <-. exists W2. split; [reflexivity|exact HR].
+Qed.
+
 Theorem ssem_related o1 o2 : forall n t W1 W2 W1' r,
   wstmt t = true -> nobs t = true -> wrel o1 o2 W1 W2 ->
   ssem Bf1 n W1 t = Some (W1', r) ->
@@ -203,10 +238,11 @@ Proof.
         -- injection Hs as <- <-. destruct (IH x W1 W2 W1a (Fail e) Hx Hnx HR Ex) as (W2a & E2 & HR2). rewrite E2.
            exists W2a. split; [reflexivity|exact HR2].
   - (* NCall *)
-    destruct t; try discriminate Hw. destruct args as [|a [|a2 l]]; try discriminate Hw.
-    + (* read() *)
-      cbn [wstmt is_bcall] in Hw. cbn [ssem] in Hs |- *. rewrite Hw in Hs |- *. cbn [andb] in Hs |- *.
-      apply String.eqb_eq in Hw. subst n0.
+    destruct t; try discriminate Hw. cbn [wstmt is_bcall] in Hw. cbn [nobs] in Hn. destruct args as [|a [|a2 l]].
+    + (* read(), or a user function without parameters *)
+      cbn [ssem] in Hs |- *. destruct (String.eqb n0 "read") eqn:Er.
+      2:{ destruct (bop_of_name n0) eqn:Eb; [discriminate Hs|]. exact (ucall_related o1 o2 n W1 W2 n0 [] W1' r Hw Hn Eb HR Hs). }
+      apply String.eqb_eq in Er. subst n0.
       assert (Hbn : is_bname "read" = true) by reflexivity.
       rewrite <- (Hb "read" Hbn).
       destruct (Nat.leb 1 n && fun_eqb (gval (w_glob W1) "read") (ft_val Bf1 "read")); [|discriminate Hs].
@@ -215,17 +251,19 @@ Proof.
       * eexists. split; [reflexivity|]. constructor; cbn [wbump w_glob w_out w_in]; try assumption.
         rewrite <- Hi, Ein. reflexivity.
       * eexists. split; [reflexivity|]. constructor; cbn [wbump w_glob w_out w_in]; try assumption. reflexivity.
-    + cbn [wstmt is_bcall] in Hw. cbn [nobs] in Hn. cbn [ssem] in Hs |- *.
+    + cbn [forallb] in Hw, Hn. rewrite andb_true_r in Hw, Hn. cbn [ssem] in Hs |- *.
       destruct (bop_of_name n0) as [b|] eqn:Eb.
       2:{ rewrite <- Hbody. destruct (ft_body Bf1 n0) as [body|] eqn:Ebody; [|discriminate Hs].
           assert (Hbn : is_bname n0 = true) by (unfold is_bname; rewrite Eb, Ebody; apply orb_true_r).
           rewrite <- (Hb n0 Hbn).
-          destruct (lpure1 body && Nat.leb (height a) n && Nat.leb (height body) n
+          rewrite <- Harity.
+          destruct ((ft_arity Bf1 n0 =? 1) && lpure1 body && Nat.leb (height a) n && Nat.leb (height body) n
                     && fun_eqb (gval (w_glob W1) n0) (ft_val Bf1 n0)) eqn:Ec; [|discriminate Hs].
           rewrite <- (den_same _ _ Hg a Hw Hn). destruct (den (w_glob W1) a) as [x|err].
           - assert (Hlp : lpure [x] body = true).
             { apply andb_prop in Ec. destruct Ec as [Ec _]. apply andb_prop in Ec. destruct Ec as [Ec _].
-              apply andb_prop in Ec. destruct Ec as [Ec _]. rewrite (lpure_len [x] [VNil] body eq_refl). exact Ec. }
+              apply andb_prop in Ec. destruct Ec as [Ec _]. apply andb_prop in Ec. destruct Ec as [_ Ec].
+              rewrite (lpure_len [x] [VNil] body eq_refl). exact Ec. }
             rewrite <- (lden_same [x] _ _ Hg body Hlp (Hnob n0 body Ebody)).
             destruct (lden [x] (w_glob W1) body) as [y|err].
             + destruct (is_fun y); [discriminate Hs|]. injection Hs as <- <-. eexists. split; [reflexivity|].
@@ -240,6 +278,10 @@ Proof.
       * injection Hs as <- <-. destruct (bop_sem_rel o1 o2 b W1 W2 x HR) as [E1 E2]. rewrite E1.
         eexists. split; [reflexivity|exact E2].
       * injection Hs as <- <-. exists W2. split; [reflexivity|exact HR].
+    + (* two or more arguments *)
+      cbn [ssem] in Hs |- *. destruct (bop_of_name n0) eqn:Eb; [discriminate Hs|].
+      destruct (String.eqb n0 "read"); [discriminate Hs|].
+      exact (ucall_related o1 o2 n W1 W2 n0 _ W1' r Hw Hn Eb HR Hs).
   - (* NWrite *)
     cbn [wstmt] in Hw. cbn [nobs] in Hn. cbn [ssem] in Hs |- *. destruct (Nat.leb (height t) n); [|discriminate Hs].
     rewrite <- (den_same _ _ Hg t Hw Hn). destruct (den (w_glob W1) t) as [x|err]; injection Hs as <- <-.
